@@ -30,7 +30,7 @@ for _name in ("preaggregate_time", "preaggregate_leadtime"):
 # ----------------------------------------------------------------------------------------------
 class StubInput(verif.input.Input):
     """an input whose arrays are given; subclass of the real Input so the real get_fields() runs"""
-    def __init__(self, name, obs, fcst, other=None):
+    def __init__(self, name, obs, fcst, other=None, prob=None):
         self.fullname = name
         self.obs = obs
         self.fcst = fcst
@@ -38,6 +38,13 @@ class StubInput(verif.input.Input):
         self.ensemble = None
         self.thresholds = _np.array([])
         self.quantiles = _np.array([])
+        if prob is not None:
+            self.pit = prob.get("pit")
+            self.ensemble = prob.get("ens")
+            self.thresholds = _np.array(STORED_THRESHOLDS)
+            self.quantiles = _np.array(STORED_QUANTILES)
+            self.threshold_scores = prob.get("cdf")
+            self.quantile_scores = prob.get("x")
         self._other = other or {}
         self.other_fields = list(self._other.keys())
         self.times = None
@@ -49,10 +56,13 @@ class StubInput(verif.input.Input):
         return self._other[name]
 
 
+STORED_THRESHOLDS = [0.5, 2.0]
+STORED_QUANTILES = [0.1, 0.9]
+
 TIME_AXES = ("Month", "Year", "Week", "Day", "Dayofyear", "Dayofmonth", "Monthofyear", "Timeofday")
 
 
-def ghost(G, n_inputs, has_obs=None, clim=None, obs_range=False, other=False):
+def ghost(G, n_inputs, has_obs=None, clim=None, obs_range=False, other=False, prob=False, ensemble=True):
     """a Data object in the state Data.__init__ leaves it in (its index lists satisfy the postcondition of
     _get_common_indices, decided separately), with symbolic contents; nothing cached yet"""
     N = n_inputs + (1 if clim else 0)
@@ -77,7 +87,19 @@ def ghost(G, n_inputs, has_obs=None, clim=None, obs_range=False, other=False):
         gh.It.append(G.array("It%d" % i, (CT,), dtype="int", bound_axis=T))
         gh.Il.append(G.array("Il%d" % i, (CL,), dtype="int", bound_axis=L))
         gh.Is.append(G.array("Is%d" % i, (CS,), dtype="int", bound_axis=Sx))
-        inputs.append(StubInput("in%d" % i, obs, fcst, oth))
+        pr = None
+        if prob:
+            E = G.axis("e%d" % i, min_size=1)
+            K = G.axis("k%d" % i, size=len(STORED_THRESHOLDS))
+            Q = G.axis("q%d" % i, size=len(STORED_QUANTILES))
+            pr = {"pit": G.array("pit%d" % i, (T, L, Sx), kinds=(FIN, NAN)),
+                  "ens": G.array("ens%d" % i, (T, L, Sx, E), kinds=(FIN, NAN)) if ensemble else None,
+                  "cdf": G.array("cdf%d" % i, (T, L, Sx, K), kinds=(FIN, NAN)),
+                  "x": G.array("x%d" % i, (T, L, Sx, Q), kinds=(FIN, NAN))}
+            for kk, vv in pr.items():
+                gh.raw[(i, kk)] = vv
+                gh.raw0[(i, kk)] = vv.copy() if vv is not None else None
+        inputs.append(StubInput("in%d" % i, obs, fcst, oth, pr))
     d = object.__new__(verif.data.Data)
     d._remove_missing_across_all = True
     d._legend = None
@@ -115,7 +137,11 @@ def ghost(G, n_inputs, has_obs=None, clim=None, obs_range=False, other=False):
     return gh
 
 
-FIELDS = {"obs": verif.field.Obs, "fcst": verif.field.Fcst, "aux": lambda: verif.field.Other("aux")}
+FIELDS = {"obs": verif.field.Obs, "fcst": verif.field.Fcst, "aux": lambda: verif.field.Other("aux"),
+          "pit": verif.field.Pit,
+          "thr0.5": lambda: verif.field.Threshold(0.5), "thr2": lambda: verif.field.Threshold(2.0), "thr1": lambda: verif.field.Threshold(1.0),
+          "q0.1": lambda: verif.field.Quantile(0.1), "q0.5": lambda: verif.field.Quantile(0.5),
+          "ens0": lambda: verif.field.Ensemble(0)}
 
 
 # ----------------------------------------------------------------------------------------------
@@ -136,12 +162,46 @@ def source_input(gh, i, f):
     return None
 
 
+def _members(S, ens, own):
+    """the ensemble of one case as a one-dimensional array (dual)"""
+    if S.symbolic:
+        g = ens._snapshot()
+        z = tuple(_zi(j) for j in own)
+        return sym.SArr((ens.axes[3],), lambda e: g(z + (e[0],)), "float")
+    return _np.asarray(ens)[own[0], own[1], own[2], :]
+
+
+def _zi(j):
+    from pyvc.framework import _zidx
+    return _zidx(j)
+
+
 def gathered(S, gh, i, f, c):
-    """input i's own stored value for the common case c = (t, l, s): looked up at ITS OWN indices (C02)"""
+    """input i's own stored value for the common case c = (t, l, s): looked up at ITS OWN indices (C02).
+    Probabilistic fields (C08): a stored cumulative probability / quantile column if the file stores that level,
+    otherwise derived from the ensemble: P(X <= t) = fraction of non-missing members at or below t; quantile of the members"""
     k = source_input(gh, i, f)
     t, l, s = c
-    raw = gh.raw0[(k, f)]
-    return S.at(raw, (S.at(gh.It[k], (t,)), S.at(gh.Il[k], (l,)), S.at(gh.Is[k], (s,))))
+    own = (S.at(gh.It[k], (t,)), S.at(gh.Il[k], (l,)), S.at(gh.Is[k], (s,)))
+    if f in ("obs", "fcst", "aux", "pit"):
+        return S.at(gh.raw0[(k, f)], own)
+    if f.startswith("thr"):
+        thr = float(f[3:])
+        if thr in STORED_THRESHOLDS and not gh.get("agg"):
+            return S.at(gh.raw0[(k, "cdf")], own + (STORED_THRESHOLDS.index(thr),))
+        mem = _members(S, gh.pre(S, k, "ens"), own) if gh.get("agg") else _members(S, gh.raw0[(k, "ens")], own)
+        nvalid = S.count_where(mem, lambda e: S.not_(S.isnan(S.at(mem, e))))
+        nbelow = S.sum_where(mem, lambda e: S.ite(S.and_(S.not_(S.isnan(S.at(mem, e))), S.at(mem, e) <= thr), 1.0, 0.0))
+        return S.ite(S.same(nvalid, 0), S.nan, nbelow / S.to_num(nvalid))
+    if f.startswith("q"):
+        q = float(f[1:])
+        if q in STORED_QUANTILES and not gh.get("agg"):
+            return S.at(gh.raw0[(k, "x")], own + (STORED_QUANTILES.index(q),))
+        mem = _members(S, gh.pre(S, k, "ens"), own) if gh.get("agg") else _members(S, gh.raw0[(k, "ens")], own)
+        return S.fn("quantile", mem, (q, "normal_unbiased"))
+    if f.startswith("ens"):
+        return S.at(gh.raw0[(k, "ens")], own + (int(f[3:]),))
+    raise ValueError(f)
 
 
 def cached_spec(S, gh, j, f, c):
@@ -224,11 +284,11 @@ def check_result(S, gh, j, fields, axis_kind, k, outs, label=""):
         sel = [c for c in cases if _conc_in_slice(S, gh, axis_kind, k, c) and case_valid(S, gh, j, c, fields)]
         for f, o in zip(fields, outs):
             want = [float(request_value(S, gh, j, f, c, fields)) for c in sel] or [float("nan")]
-            goals.append((label + "field-%s:exactly-the-valid-cases-of-the-slice,with-own-values" % f, S.same_array(_np.asarray(o, float), _np.array(want))))
+            goals.append((label + "field-%s:exactly-the-valid-cases-of-the-slice,with-own-values" % f, S.same_array(_np.asarray(o), _np.array(want))))
     else:
         for f, o in zip(fields, outs):
             want = _np.array([float(request_value(S, gh, j, f, c, fields)) if case_valid(S, gh, j, c, fields) else float("nan") for c in cases]).reshape(T, L, Sn)
-            goals.append((label + "field-%s:exactly-the-valid-cases-of-the-slice,with-own-values" % f, S.same_array(_np.asarray(o, float), want)))
+            goals.append((label + "field-%s:exactly-the-valid-cases-of-the-slice,with-own-values" % f, S.same_array(_np.asarray(o), want)))
     return goals
 
 
@@ -287,9 +347,10 @@ def _size(G, arr):
 
 def _one_request(n_inputs, j, fields, axis_kind, has_obs=None, clim=None, obs_range=False, single=False):
     other = "aux" in fields
+    prob = any(f not in ("obs", "fcst", "aux") for f in fields)
 
     def setup(G):
-        gh = ghost(G, n_inputs, has_obs=has_obs, clim=clim, obs_range=obs_range, other=other)
+        gh = ghost(G, n_inputs, has_obs=has_obs, clim=clim, obs_range=obs_range, other=other, prob=prob)
         gh.k = _slice_index(G, gh, axis_kind)
         return gh
 
@@ -339,6 +400,18 @@ for _ct in ("subtract", "divide"):
 _reg_request("N=1+clim,input=0,[fcst,aux],axis=time,clim=subtract", ("C14",), 1, 0, ("fcst", "aux"), "time", clim="subtract")
 _reg_request("N=1+clim,input=0,[aux],axis=time,clim=subtract", ("C14",), 1, 0, ("aux",), "time", clim="subtract")
 _reg_request("N=1+clim,input=0,[obs,fcst],axis=time,clim=subtract,obsrange", ("C14", "C03"), 1, 0, ("obs", "fcst"), "time", clim="subtract", obs_range=True)
+
+
+_PROB = ("C08", "C01", "C04")
+_reg_request("N=1,input=0,[obs,thr0.5],axis=time(stored-cdf-column)", _PROB, 1, 0, ("obs", "thr0.5"), "time")
+_reg_request("N=2,input=1,[obs,thr0.5,thr2],axis=no(stored-cdf-columns)", _PROB, 2, 1, ("obs", "thr0.5", "thr2"), "no")
+_reg_request("N=1,input=0,[obs,thr1],axis=time(probability-from-ensemble)", _PROB, 1, 0, ("obs", "thr1"), "time")
+_reg_request("N=2,input=0,[obs,thr1],axis=no(probability-from-ensemble)", _PROB, 2, 0, ("obs", "thr1"), "no")
+_reg_request("N=1,input=0,[obs,q0.1],axis=time(stored-quantile-column)", _PROB, 1, 0, ("obs", "q0.1"), "time")
+_reg_request("N=1,input=0,[obs,q0.5],axis=time(quantile-from-ensemble)", _PROB, 1, 0, ("obs", "q0.5"), "time")
+_reg_request("N=2,input=1,[q0.1,q0.5,fcst,obs],axis=no", _PROB, 2, 1, ("q0.1", "q0.5", "fcst", "obs"), "no")
+_reg_request("N=2,input=0,pit-single,axis=time", _PROB, 2, 0, ("pit",), "time", single=True)
+_reg_request("N=1,input=0,[ens0,obs],axis=time(ensemble-member)", _PROB, 1, 0, ("ens0", "obs"), "time")
 
 
 def _bad_input_index(n_inputs, j, clim=None):
